@@ -348,6 +348,8 @@ class Build:
             mid, last = (self.run(x, stage_prefix=stage + 'c')
                          for x in refmodel.concat3_operands(op[1]))
             return r_concat([u, mid, last])
+        if k in refmodel.NARY:
+            raise Unsupported('n-ary operations are not evaluated lazily here')
         if k == 'groupby':
             self.eager = True
             gf = fns.groupfn(op[1], stage)
